@@ -1,5 +1,7 @@
 #!/bin/bash
 # Apply a seeded change to /repo, run the given check(s), undo it straight afterwards.
+# What the run writes (evidence, replays) goes to a scratch directory (VERIF_OUT), never into /verif/evidence or /verif/replays:
+# those describe the unchanged tree only.
 # usage: try_seed.sh <seed dir with patch.diff> <tier> <property> [more properties]
 SD=$1; TIER=$2; shift 2
 cd /repo || exit 2
@@ -9,11 +11,13 @@ git reset -q   # --3way stages; keep the change in the working tree only
 if grep -rl '^<<<<<<<' src include >/dev/null 2>&1; then git checkout -q -- .; echo "PATCH CONFLICTS with current /repo"; exit 3; fi
 cd /verif
 for P in "$@"; do
-  mkdir -p /verif/build/seedtmp; rm -rf /verif/build/seedtmp/replays_$P; [ -d replays/$P ] && cp -r replays/$P /verif/build/seedtmp/replays_$P
-  OUT=$(VERIF_BUDGET=${VERIF_BUDGET:-40} timeout 1500 ./check $P $TIER 2>&1); RC=$?
+  OUTD=/tmp/p/seedout_$$; rm -rf $OUTD; mkdir -p $OUTD
+  OUT=$(VERIF_OUT=$OUTD VERIF_BUDGET=${VERIF_BUDGET:-40} timeout 1500 ./check $P $TIER 2>&1); RC=$?
   echo "$OUT" | grep -E "^violation kind|^C[0-9]+ $TIER|VIOLATION|ERROR|KNOWN" | head -6
   echo "RESULT seed=$(basename $SD) check=$P tier=$TIER rc=$RC"
-  # replays found against a seeded tree belong to the seed, not to the regression tier
-  mkdir -p $SD/found_$P; for f in replays/$P/*.json; do [ -e "$f" ] || continue; if [ ! -e /verif/build/seedtmp/replays_$P/$(basename $f) ]; then mv $f $SD/found_$P/; fi; done
+  mkdir -p $SD/found_$P; for f in $OUTD/replays/$P/*.json; do [ -e "$f" ] && mv $f $SD/found_$P/; done
+  rm -rf $OUTD
 done
 git -C /repo checkout -q -- .
+# /verif/build now holds the seeded library: rebuild from the restored tree
+/verif/build.sh rt >/dev/null 2>&1
